@@ -82,6 +82,102 @@ def sfOp (op : String) (a b : Nat) : Option String :=
     | none => some "ovf"
   | _ => none
 
+
+/-! round 3: every parser entry point, hashed exhaustive batches, run-length coded long literals -/
+
+def a32 (s : List Nat) : Option (F32 × Nat) := igrisAtof32 (D := F64) F64.toF32 s
+
+/-- the strings of op `gx`: number `c` of length `len` over {+ - . e E 0 1 9 space x}, NUL terminated -/
+def gxAlpha : Array Nat := #[43, 45, 46, 101, 69, 48, 49, 57, 32, 120]
+def gxString : Nat → Nat → List Nat
+  | 0, _ => [0]
+  | k + 1, c => gxAlpha[c % 10]! :: gxString k (c / 10)
+
+def feedLE (h : UInt64) : Nat → UInt64 → UInt64
+  | 0, _ => h
+  | n + 1, v => feedLE ((h ^^^ (v &&& 255)) * 0x100000001b3) n (v >>> 8)
+
+def feed64 (h : UInt64) (withEnd : Bool) (r : Option (F64 × Nat)) : UInt64 :=
+  match r with
+  | none => fnvStep h 0xfd
+  | some (v, e) =>
+    let h := feedLE h 8 (if sfIsNaN b64 v.bits then 0xffffffffffffffff else UInt64.ofNat v.bits)
+    fnvStep h (if withEnd then e % 256 else 255)
+
+def feed32 (h : UInt64) (withEnd : Bool) (r : Option (F32 × Nat)) : UInt64 :=
+  match r with
+  | none => fnvStep h 0xfd
+  | some (v, e) =>
+    let h := feedLE h 4 (if sfIsNaN b32 v.bits then 0xffffffff else UInt64.ofNat v.bits)
+    fnvStep h (if withEnd then e % 256 else 255)
+
+/- The nine entry points of one string.  The wrappers are, by definition, igrisAtof64 resp. igrisAtof32
+   followed by a projection / widening (the `example`s below check that by `rfl`), so the driver
+   evaluates each parser once per string. -/
+example : @igrisStrtod F64 _ = @igrisAtof64 F64 _ := rfl
+example : @compatStrtod F64 _ = @igrisAtof64 F64 _ := rfl
+example (s : List Nat) : compatAtof (F := F64) s = (igrisAtof64 s).map (·.1) := rfl
+example (s : List Nat) : binreaderFloat (D := F64) F64.toF32 s = a32 s := rfl
+example (s : List Nat) : igrisStrtod32 F64.toF32 F32.toF64 s = (a32 s).map fun (v, e) => (F32.toF64 v, e) := rfl
+example (s : List Nat) : compatStrtod32 F64.toF32 F32.toF64 s = (a32 s).map fun (v, e) => (F32.toF64 v, e) := rfl
+example (s : List Nat) : compatAtof32 F64.toF32 F32.toF64 s = (a32 s).map fun (v, _) => F32.toF64 v := rfl
+
+def gxOne (h : UInt64) (s : List Nat) : UInt64 :=
+  let r64 : Option (F64 × Nat) := igrisAtof64 s
+  let r32 := a32 s
+  let w32 : Option (F64 × Nat) := r32.map fun (v, e) => (F32.toF64 v, e)
+  let h := feed64 h true r64      -- igris_atof64
+  let h := feed64 h true r64      -- igris_strtod
+  let h := feed64 h true r64      -- compat strtod
+  let h := feed64 h false r64     -- compat atof
+  let h := feed32 h true r32      -- igris_atof32
+  let h := feed32 h true r32      -- binreader::read_ascii_decimal_float
+  let h := feed64 h true w32      -- igris_strtod, WITHOUT_ATOF64
+  let h := feed64 h true w32      -- compat strtod, WITHOUT_ATOF64
+  feed64 h false w32              -- compat atof, WITHOUT_ATOF64
+
+def gxBatch (len : Nat) : Nat → Nat → UInt64 → UInt64
+  | 0, _, h => h
+  | n + 1, c, h => gxBatch len n (c + 1) (gxOne h (gxString len c))
+
+def parseKind (k : String) (s : List Nat) : Option String :=
+  match k with
+  | "a32" | "brf" => some (atofLine32 true (a32 s))
+  | "a32n" => some (atofLine32 false (a32 s))
+  | "a64" | "a64u" => some (atofLine64 true (igrisAtof64 s))
+  | "istd" => some (atofLine64 true (igrisStrtod s))
+  | "strtod" => some (atofLine64 true (compatStrtod s))
+  | "atof" => some (atofLine64 false ((compatAtof (F := F64) s).map fun v => (v, 0)))
+  | "istd32" => some (atofLine64 true (igrisStrtod32 F64.toF32 F32.toF64 s))
+  | "strtod32" => some (atofLine64 true (compatStrtod32 F64.toF32 F32.toF64 s))
+  | "atof32c" => some (atofLine64 false ((compatAtof32 F64.toF32 F32.toF64 s).map fun v => (v, 0)))
+  | _ => none
+
+/-- `B1 N1 B2 N2 ...` -> N1 times the byte B1, ... -/
+def expandRuns : List String → Option (List Nat)
+  | [] => some []
+  | [_] => none
+  | b :: n :: rest => do
+    let b ← parseHexNat? b
+    let n ← n.toNat?
+    let tl ← expandRuns rest
+    pure (List.replicate n b ++ tl)
+
+def bytesOf (t : String) : List Nat := t.toList.map (·.toNat)
+
+def premainLine : String :=
+  let f := fun (t : Option (List Nat)) => match t with | some t => textHex t | none => "ub"
+  "a64=" ++ atofLine64 true (igrisAtof64 (bytesOf "-12.5e-1x" ++ [0])) ++
+  " a32=" ++ atofLine32 true (a32 (bytesOf "3.25e1" ++ [0])) ++
+  " istd=" ++ atofLine64 true (igrisStrtod (bytesOf "7." ++ [0])) ++
+  " strtod=" ++ atofLine64 true (compatStrtod (bytesOf ".5e1" ++ [0])) ++
+  " istd32=" ++ atofLine64 true (igrisStrtod32 F64.toF32 F32.toF64 (bytesOf "2.5" ++ [0])) ++
+  " f32=" ++ f (f32toa (⟨0x3dcccccd⟩ : F32) 6) ++
+  " ftoa=" ++ f (f64toa F64.toF32 (⟨0x40934a456d5cfaad⟩ : F64) (-1))
+
+def szLine : String :=
+  "float32_t=4 float64_t=8 atof32=4 atof64=8 strtod=8 strtod32=8 ftoa32arg=4 int=4 maxprec=" ++ toString MAX_PRECISION
+
 def tblLine : String :=
   toString MAX_PRECISION ++ String.join ((List.range (MAX_PRECISION + 1)).map fun i =>
     let d : F64 := ⟨sfLit b64 5 (i + 1)⟩
@@ -103,6 +199,10 @@ def stepLine (_ : Unit) (line : String) : Unit × String :=
         let b ← parseHexNat? b
         let p ← parseInt? p
         pure (ftoaLine (f64toa F64.toF32 (⟨b⟩ : F64) (int8 p)))
+    | ["ftoa32", b, p] => do
+        let b ← parseHexNat? b
+        let p ← parseInt? p
+        pure (ftoaLine (igrisFtoa32 F64.toF32 (⟨b⟩ : F64) (int8 p)))
     | ["f32h", s, n, st, p] => do
         let s ← parseHexNat? s
         let n ← n.toNat?
@@ -110,27 +210,20 @@ def stepLine (_ : Unit) (line : String) : Unit × String :=
         let p ← parseInt? p
         pure (hashRange s n st (int8 p))
     | ["sweep", _, n, _] => some ("swept " ++ n)
-    | ["a32", m] => do
+    | ["sz"] => some szLine
+    | ["premain"] => some premainLine
+    | ["gx", len, c0, n] => do
+        let len ← len.toNat?
+        let c0 ← c0.toNat?
+        let n ← n.toNat?
+        pure (hexOfNat 16 (gxBatch len n c0 0xcbf29ce484222325).toNat ++ " " ++ toString n)
+    | ["gxo", _, _, n] => some ("judged " ++ n)
+    | "lng" :: k :: runs => do
+        let m ← expandRuns runs
+        parseKind k m
+    | [k, m] => do
         let m ← parseBytes? m
-        pure (atofLine32 true (atof32 F64.toF32 (m.map (·.toNat))))
-    | ["brf", m] => do
-        let m ← parseBytes? m
-        pure (atofLine32 true (atof32 F64.toF32 (m.map (·.toNat))))
-    | ["a32n", m] => do
-        let m ← parseBytes? m
-        pure (atofLine32 false (atof32 F64.toF32 (m.map (·.toNat))))
-    | ["a64", m] => do
-        let m ← parseBytes? m
-        pure (atofLine64 true (atof64 (m.map (·.toNat))))
-    | ["a64u", m] => do
-        let m ← parseBytes? m
-        pure (atofLine64 true (atof64 (m.map (·.toNat))))
-    | ["strtod", m] => do
-        let m ← parseBytes? m
-        pure (atofLine64 true (atof64 (m.map (·.toNat))))
-    | ["atof", m] => do
-        let m ← parseBytes? m
-        pure (atofLine64 false (atof64 (m.map (·.toNat))))
+        parseKind k (m.map (·.toNat))
     | ["dpd", b, p] => do
         let b ← parseHexNat? b
         let p ← parseInt? p
